@@ -29,4 +29,11 @@ func init() {
 		Assumptions: commonAssumptions,
 		Rules:       []string{"C13/pair", "C13/single", "C13/arity", "C13/errcheck", "C13/gate-let", "C13/gate-join", "C13/rowcount", "C13/joinkind"},
 	}, ruleC13Pair, ruleC13Arity, ruleC13ErrCheck, ruleC13Gates, ruleC13Parser)
+	register(PropertyMeta{
+		ID:          "C16",
+		Level:       "other",
+		Explanation: "Decided on cmd/pql (run, main) with the fact engine: (prelude) every pql.Compile call in run receives a source whose leftmost concatenation operand is the accumulated let prelude; (readerr) every return after the `for scanner.Scan()` loop is reached only after Scanner.Err() was consulted and a non-nil result is returned; (sticky) every path on which logError was called returns an error known non-nil, and no error variable is reset to nil; (let-on-success) the prelude builder is only written under `err == nil` of the Compile call that validated the very statement written; (output) every write to the output is Fprintf(\"%s\\n\\n\", sql) of the SQL of the Compile call that just succeeded; (exit) RunE returns run's error without overwriting it while non-nil, main calls os.Exit with a non-zero constant and falls off the end only with a nil error. Not decided: byte-exact stdout for all scripts and layouts, splitting behaviour (C15), the built binary.",
+		Assumptions: commonAssumptions,
+		Rules:       []string{"C16/prelude", "C16/readerr", "C16/sticky", "C16/let-on-success", "C16/output", "C16/exit"},
+	}, ruleC16)
 }
